@@ -156,45 +156,25 @@ Theorem C16_real_roundtrip_nan : forall d, 0 <= d < two64 -> is_nan d = true ->
 Proof. exact real_roundtrip_nan. Qed.
 Print Assumptions C16_real_roundtrip_nan.
 
-(* -- the full round trip "for all 2^64 bit patterns" is false of the code on
-      subnormals (the hidden bit is ORed in): refuted + partial -- *)
-Theorem C16_real_roundtrip_partial : forall d, 0 <= d < two64 ->
-  ~ (0 <= d < two64 /\ d_exp d = 0 /\ d_frac d <> 0) ->
+(* -- every subnormal double comes back bit for bit (no hidden bit is added) -- *)
+Theorem C16_real_roundtrip_subnormal : forall d,
+  0 <= d < two64 /\ d_exp d = 0 /\ d_frac d <> 0 -> REAL2double (double2REAL d) = ROk d.
+Proof. exact real_roundtrip_subnormal. Qed.
+Print Assumptions C16_real_roundtrip_subnormal.
+
+(* -- the full round trip, for all 2^64 bit patterns -- *)
+Theorem C16_real_roundtrip : forall d, 0 <= d < two64 ->
   REAL2double (double2REAL d) = if is_nan d then RNaN else ROk d.
-Proof. exact real_roundtrip_partial. Qed.
-Print Assumptions C16_real_roundtrip_partial.
+Proof. exact real_roundtrip. Qed.
+Print Assumptions C16_real_roundtrip.
 
-Theorem C16_real_roundtrip_refuted :
-  exists d, 0 <= d < two64 /\ is_nan d = false /\
-            (0 <= d < two64 /\ d_exp d = 0 /\ d_frac d <> 0) /\
-            double2REAL d = [129; 252; 0; 3] /\
-            REAL2double (double2REAL d) = ROk 3377699720527872 /\
-            REAL2double (double2REAL d) <> ROk d.
-Proof. exact real_roundtrip_refuted. Qed.
-Print Assumptions C16_real_roundtrip_refuted.
-
-(* -- DER form (X.690 8.5, 11.3).  der_real_form_weak = der_real_form without
-      the clause "no leading zero mantissa octet".  The weak form holds for all
-      2^64 bit patterns; the full form is false of the code: refuted + partial +
-      the exact set of doubles for which it fails -- *)
-Theorem C16_real_der_form_partial : forall d, 0 <= d < two64 ->
-  der_real_form_weak (double2REAL d) = true.
-Proof. exact real_der_form_partial. Qed.
-Print Assumptions C16_real_der_form_partial.
-
-Theorem C16_real_der_form_refuted :
-  exists d, (0 <= d < two64 /\ 1 <= d_exp d <= 2046) /\
-            double2REAL d = [128; 249; 0; 129] /\
-            der_real_form (double2REAL d) = false.
-Proof. exact real_der_form_refuted. Qed.
-Print Assumptions C16_real_der_form_refuted.
-
-Theorem C16_real_der_form_iff : forall d N t,
-  0 <= d < two64 -> d_exp d <> 2047 -> (d_exp d <> 0 \/ d_frac d <> 0) ->
-  0 <= t -> N mod 2 = 1 -> N * 2 ^ t = two52 + d_frac d ->
-  (der_real_form (double2REAL d) = true <-> t mod 8 <= 4).
-Proof. exact real_der_form_iff. Qed.
-Print Assumptions C16_real_der_form_iff.
+(* -- DER form (X.690 8.5, 11.3: base 2, F = 0, minimal exponent octets with the
+      matching length code, odd mantissa in the fewest octets), for all 2^64
+      bit patterns -- *)
+Theorem C16_real_der_form : forall d, 0 <= d < two64 ->
+  der_real_form (double2REAL d) = true.
+Proof. exact real_der_form. Qed.
+Print Assumptions C16_real_der_form.
 
 (* -- the written (sign, N, E) denotes exactly the double:
       N * 2^E = (2^52 + f) * 2^(e - 1075), N odd -- *)
@@ -205,19 +185,11 @@ Theorem C16_real_value_exact : forall d, 0 <= d < two64 /\ 1 <= d_exp d <= 2046 
 Proof. exact real_value_exact. Qed.
 Print Assumptions C16_real_value_exact.
 
-(* -- subnormals: what is written denotes (2^52+f) * 2^(log2 f - 1126) instead
-      of f * 2^-1074 -- *)
-Theorem C16_real_value_subnormal_actual : forall d,
+(* -- subnormals: N * 2^E = f * 2^-1074, N odd -- *)
+Theorem C16_real_value_exact_subnormal : forall d,
   0 <= d < two64 /\ d_exp d = 0 /\ d_frac d <> 0 ->
   exists N E, real_value (double2REAL d) = Some (d_sign d, N, E) /\
-              Z.log2 (d_frac d) - 1126 <= E /\ N mod 2 = 1 /\
-              N * 2 ^ (E - (Z.log2 (d_frac d) - 1126)) = two52 + d_frac d.
-Proof. exact real_value_subnormal_actual. Qed.
-Print Assumptions C16_real_value_subnormal_actual.
-
-Theorem C16_real_value_exact_refuted :
-  exists d, (0 <= d < two64 /\ d_exp d = 0 /\ d_frac d <> 0) /\
-            real_value (double2REAL d) = Some (0, 3, -1024) /\
-            3 * 2 ^ (-1024 + 1074) <> d_frac d.
-Proof. exact real_value_exact_refuted. Qed.
-Print Assumptions C16_real_value_exact_refuted.
+              -1074 <= E /\ N mod 2 = 1 /\
+              N * 2 ^ (E + 1074) = d_frac d.
+Proof. exact real_value_exact_subnormal. Qed.
+Print Assumptions C16_real_value_exact_subnormal.
